@@ -150,7 +150,7 @@ def gen_read_cases(c, P):
     # sized gz member in front shifts the member so that its END falls on the boundary.
     tail_kinds = list(kinds)
     for j in (1, 2):
-        for d in range(-3, 4):
+        for d in range(-6, 4):
             end = 6 + 16384 * j + d
             m1 = gz_member_of_length(rng, end)
             if m1 is not None:
@@ -219,6 +219,53 @@ def gen_read_cases(c, P):
     return cases
 
 
+def emitted_by_deflate(d):
+    co = zlib.compressobj(9, zlib.DEFLATED, 31, 8)       # the parameters of GZipWrite
+    return len(co.compress(d))
+
+
+def find_partial_drain_payloads(rng, want=3, size=60000, budget=1500):
+    """Data after whose write() the gzip writer's 4096-byte output buffer has 1..5 free bytes:
+    the next write()/flush() finds avail_out < kMinOutput (6) with a PARTIALLY filled buffer and
+    must hand over exactly NextOutput()-buf_ bytes (the case split of ensure_output in the model).
+    Seeded, bounded search: a low-entropy prefix of growing length moves the number of bytes
+    deflate has emitted smoothly; coarse scan, then fine scan where the residue mod 4096 passes 4091..4095."""
+    R = bytes(rng.randrange(256) for _ in range(size))
+    hits = []
+    trials = 0
+    for alpha in (64, 2, 16):
+        L = bytes(rng.randrange(alpha) + 65 for _ in range(size))
+        coarse = []
+        for z in range(0, 48001, 750):
+            coarse.append((z, emitted_by_deflate(L[:z] + R[z:])))
+            trials += 1
+        for (z0, t0), (z1, t1) in zip(coarse, coarse[1:]):
+            if abs(t1 - t0) > 3000 or t0 <= 10 or t1 <= 10:
+                continue
+            lo, hi = min(t0, t1), max(t0, t1)
+            if not any(v % 4096 >= 4091 for v in range(lo, hi + 1)):
+                continue
+            for z in range(z0, z1, 3):
+                t = emitted_by_deflate(L[:z] + R[z:])
+                trials += 1
+                if t % 4096 >= 4091:
+                    hits.append((L[:z] + R[z:], 4096 - t % 4096))
+                    break
+                if trials > budget:
+                    break
+            if len(hits) >= want or trials > budget:
+                return hits
+    return hits
+
+
+def partial_drain_events(events):
+    """how often a deflate call left 1..5 free bytes and the next call started on a fresh buffer"""
+    calls = [x for x in events if not isinstance(x, tuple) and x.rc is not None and x.fn == "deflate"]
+    pairs = [(a, b) for a, b in zip(calls, calls[1:]) if 1 <= a.aout2 <= 5 and b.aout == 4096]
+    # the drain happened in write() (next call is deflate(Z_NO_FLUSH)) or in flush() (Z_FINISH)
+    return sum(1 for a, b in pairs if b.flag == 0), sum(1 for a, b in pairs if b.flag != 0)
+
+
 def gen_write_cases(c, P):
     rng = c.rng
     seqs = [[], ["f"], ["f", "f"], ["w"], ["w", "f", "w"], ["w", "f", "w", "f"],
@@ -255,6 +302,21 @@ def gen_write_cases(c, P):
             nflush = sum(1 for o in s if o == "f")
             cases.append({"comp": comp, "ops": s, "data": data,
                           "bucket": "write/%s/%s" % (comp, "no-data" if not data else ("flushes" if nflush else "no-flush"))})
+    # aimed at the ensure_output case split: 1..5 free bytes at a write()/flush() boundary (gzip; for
+    # bzip2 kMinOutput = 1, so a drained buffer is always completely full -- the same ops run there too)
+    hits = find_partial_drain_payloads(rng, want=3 if c.tier == "quick" else 8)
+    for d, free in hits:
+        for tail in (["w78"], ["w78", "w79"], ["w78", "w" + P["tiny"].hex(), "f"], ["f"], ["w78", "w", "f", "w" + d[:5000].hex()],
+                     ["w" + P["tiny"].hex(), "f", "f"]):
+            ops = ["w" + d.hex()] + tail
+            for comp in ("gzip", "bzip2"):
+                data = b"".join(bytes.fromhex(o[1:]) for o in ops if o.startswith("w"))
+                cases.append({"comp": comp, "ops": ops, "data": data, "bucket": "write/%s/partial-buffer-at-call-boundary(free=%d)" % (comp, free),
+                              # (a flush directly after the big write does not see the partial buffer: deflate
+                              #  still holds pending output then; the one-byte write flushes it first)
+                              "aimed": comp == "gzip" and tail != ["f"]})
+    if not hits:
+        c.broken.append("generator: no payload found that leaves 1..5 free bytes in the gzip output buffer (search budget exhausted)")
     return cases
 
 
@@ -366,6 +428,8 @@ def main(argv):
         return c.finish(rule="build failed")
     c.proofs(extra_trusted=["harness/libvcodec.c (LD_PRELOAD interposer, pass-through logging)",
                             "Python zlib/bz2/lzma and the gzip/bzip2 command line tools as independent codecs"])
+    if c.tier == "thorough":
+        coqchk(c)
     drv, dlog = build_driver("C15")
     impl = hx_bin("hx_compress")
     P = gen_payloads(c)
@@ -386,7 +450,7 @@ def main(argv):
     c.sample({"case": lines[len(rcases) // 2][:200]})
     c.sample({"case": lines[1 + len(rcases) + 8][:200]})
 
-    results, events = codeclog.run_logged(impl, lines, timeout_case=5)
+    results, events = codeclog.run_logged(impl, lines, timeout_case=15, max_bad=4)
     if len(results) != len(lines):
         c.broken.append("harness hx_compress produced %d results for %d cases" % (len(results), len(lines)))
         return c.finish(rule="harness failed")
@@ -476,6 +540,19 @@ def main(argv):
             if r is not None and (r[0] != 0 or r[1] != x["data"]):
                 c.violation("write-cli-decoder-disagrees: %s -dc exit %d, %d bytes, expected %d" % (x["comp"], r[0], len(r[1]), len(x["data"])), rep)
         contract_encoder(c, ev, x["comp"])
+        if x["comp"] == "gzip":
+            n_w, n_f = partial_drain_events(ev)
+            dist = c.cov["distribution"]
+            if n_w:
+                dist["boundary/gzip-partial-buffer-drained-in-write()"] = dist.get("boundary/gzip-partial-buffer-drained-in-write()", 0) + n_w
+            if n_f:
+                dist["boundary/gzip-partial-buffer-drained-in-flush()"] = dist.get("boundary/gzip-partial-buffer-drained-in-flush()", 0) + n_f
+            if not (n_w or n_f) and x.get("aimed"):
+                c.broken.append("generator: an aimed write case did not reach the partial-buffer drain (python zlib and the linked zlib emit differently?)")
+
+    for kind_ in ("write()", "flush()"):
+        if not c.cov["distribution"].get("boundary/gzip-partial-buffer-drained-in-%s" % kind_) and "SKIPPED" not in results:
+            c.broken.append("generator: the partial-buffer drain in %s (1..5 free bytes, kMinOutput boundary) was not exercised" % kind_)
 
     for (lvl, d), res, ev in zip(zcases, z_res, z_ev):
         rep = {"op": "GZCompress", "harness_line": ("Z %d %s" % (lvl, hexd(d)))[:4000], "level": lvl, "data_len": len(d), "impl": res[:200]}
@@ -493,6 +570,12 @@ def main(argv):
         if back != d or members != 1:
             c.violation("gzcompress-roundtrip: %d bytes level %d expands to %d bytes in %d members" % (len(d), lvl, len(back), members), rep)
         contract_encoder(c, ev, "gzip")
+
+    # --- thorough: all cases again through the ASan+UBSan build (no interposer): uninitialised or
+    #     out-of-bounds use in the driver code shows up as a sanitizer report
+    if c.tier == "thorough":
+        os.environ["HX_TMPDIR"] = codeclog.scratch_dir()
+        asan_lines(c, "hx_compress", [l for l in lines if len(l) < 400000], what="(ReadCompressed/WriteCompressed/GZCompress)")
 
     # --- the real tool writing through ThreadedBufferedStream<WriteCompressed>
     sd = os.path.join(codeclog.scratch_dir(), "c15-shard-%d" % os.getpid())
